@@ -321,6 +321,11 @@ func (r *Runner) c06after(op *OpSpec, st *Step, sd *model.StructDef, m *message,
 			o.hasNC = true
 		}
 	}
+	if !o.hasNC && hasNoCopy(r.C, sd) && model.HoldsNoCopy(r.C, sd, dst.Elem(), 0) {
+		// a nocopy view in a part of the object the extent walk does not reach (prefilled destination, entries of a
+		// struct-keyed map)
+		o.hasNC = true
+	}
 	s.live = append(s.live, o)
 	if len(s.live) > 64 {
 		s.live = s.live[1:]
@@ -475,7 +480,75 @@ func (r *Runner) c09encCheck(op *OpSpec, st *Step, v *value, out []byte, res *Re
 	}
 	if miss := requiredMissing(r.C, v.sd, v.w, ow, op.Type); miss != "" {
 		r.violation("C09", "C09/required-not-written", fmt.Sprintf("EncodeObject(%s) omitted required field %s; value=%s", op.Type, miss, v.w.String()), st)
+		return
 	}
+	// every struct instance the output itself contains - also the ones that cannot be matched to the value by
+	// position or key bytes (struct-keyed map entries, containers whose length changed) - has its required fields
+	if miss := requiredInOutput(r.C, v.sd, ow, op.Type, 0); miss != "" {
+		r.violation("C09", "C09/required-not-written", fmt.Sprintf("EncodeObject(%s) omitted required field %s; value=%s", op.Type, miss, v.w.String()), st)
+	}
+}
+
+// requiredInOutput walks the output alone, guided by the schema.
+func requiredInOutput(c *model.Corpus, sd *model.StructDef, out *model.W, path string, depth int) string {
+	if depth > 200 {
+		return ""
+	}
+	if depth > 0 && len(out.F) == 0 {
+		// a nil non-optional struct is written as an empty struct: that is not a struct instance of the value, and
+		// without the value's tree at this position it cannot be told from one
+		return ""
+	}
+	for _, f := range sd.Fields {
+		var ov *model.W
+		for _, wf := range out.F {
+			if wf.ID == f.ID && wf.V.T == f.T.Wire() {
+				ov = wf.V
+			}
+		}
+		if ov == nil {
+			if f.Req == model.Required {
+				return path + "." + f.Name
+			}
+			continue
+		}
+		if m := reqOutT(c, f.T, ov, path+"."+f.Name, depth+1); m != "" {
+			return m
+		}
+	}
+	return ""
+}
+
+func reqOutT(c *model.Corpus, t *model.T, out *model.W, path string, depth int) string {
+	if !involves(t) {
+		return ""
+	}
+	switch t.K {
+	case model.Struct:
+		return requiredInOutput(c, c.Get(t.S), out, path, depth)
+	case model.List, model.Set:
+		if out.VT != t.Elem.Wire() {
+			return ""
+		}
+		for i := range out.L {
+			if m := reqOutT(c, t.Elem, out.L[i], path+"["+strconv.Itoa(i)+"]", depth+1); m != "" {
+				return m
+			}
+		}
+	case model.Map:
+		if out.KT != t.Key.Wire() || out.VT != t.Elem.Wire() {
+			return ""
+		}
+		for i := 0; i+1 < len(out.L); i += 2 {
+			if m := reqOutT(c, t.Key, out.L[i], path+"[key#"+strconv.Itoa(i/2)+"]", depth+1); m != "" {
+				return m
+			}
+			if m := reqOutT(c, t.Elem, out.L[i+1], path+"[#"+strconv.Itoa(i/2)+"]", depth+1); m != "" {
+				return m
+			}
+		}
+	}
+	return ""
 }
 
 // requiredMissing walks the input tree (which says which struct instances exist) and the output tree together.
